@@ -1,7 +1,402 @@
-//! (stub) driver module - see tools/HOWTO.md
-use crate::util::Args;
+//! C13 - layer compositing obeys the stacking laws.
+//!
+//! A case is a stack of layers A, a transformation `tr` (remove / edit hidden / remove-below-opaque / insert empty
+//! alpha / translate / move) and the transformed stack B.  Both stacks are built as real `icy_engine::Buffer`s
+//! (non-terminal, no overlay, default_font_page = 0) and `Buffer::get_char` is queried at every position of the
+//! bounding box of both stacks plus a 2-cell border.  The event carries both stacks and both OBSERVED grids; the laws
+//! are evaluated by spec/doc/Trace_Layers.tla.  Cases: TLC-generated (gen/layers_*.ndjson) + seeded random stacks.
+use crate::util::{guard, panic_site, rng, Args, Out};
+use icy_engine::{AttributedChar, BitFont, Buffer, Layer, Line, Mode, TextAttribute, TextPane};
+use rand::rngs::StdRng;
+use rand::Rng;
+use serde_json::{json, Value};
 
-pub fn c13(_a: &Args) {
-    eprintln!("c13: driver not built yet");
-    std::process::exit(2);
+const T: i64 = -1; // TextAttribute::TRANSPARENT_COLOR in the traces
+
+#[derive(Clone, Debug, PartialEq)]
+struct Cell {
+    ch: u32,
+    fg: i64,
+    bg: i64,
+    attr: u16,
+    font: usize,
+}
+
+#[derive(Clone, Debug, PartialEq)]
+struct Lay {
+    o: (i32, i32),
+    s: (i32, i32),
+    m: u8,
+    a: bool,
+    v: bool,
+    rows: Vec<Vec<Option<Cell>>>,
+}
+
+#[derive(Clone, Debug)]
+struct Tr {
+    op: &'static str,
+    k: usize,
+    d: (i32, i32),
+    layer: Option<Lay>,
+}
+
+fn col_in(c: i64) -> u32 {
+    if c == T { TextAttribute::TRANSPARENT_COLOR } else { c as u32 }
+}
+fn col_out(c: u32) -> i64 {
+    if c == TextAttribute::TRANSPARENT_COLOR { T } else { c as i64 }
+}
+
+fn cell_json(c: &Option<Cell>) -> Value {
+    match c {
+        None => json!([]),
+        Some(c) => json!([c.ch, c.fg, c.bg, c.attr, c.font]),
+    }
+}
+fn cell_from(v: &Value) -> Option<Cell> {
+    let a = v.as_array()?;
+    if a.len() < 5 {
+        return None;
+    }
+    Some(Cell { ch: a[0].as_u64()? as u32, fg: a[1].as_i64()?, bg: a[2].as_i64()?, attr: a[3].as_u64()? as u16, font: a[4].as_u64()? as usize })
+}
+fn lay_json(l: &Lay) -> Value {
+    json!({"o":[l.o.0,l.o.1],"s":[l.s.0,l.s.1],"m":l.m,"a":l.a as u8,"v":l.v as u8,
+           "rows": l.rows.iter().map(|r| Value::Array(r.iter().map(cell_json).collect())).collect::<Vec<_>>()})
+}
+fn lay_from(v: &Value) -> Lay {
+    let p = |k: &str, i: usize| v[k][i].as_i64().unwrap_or(0) as i32;
+    Lay {
+        o: (p("o", 0), p("o", 1)),
+        s: (p("s", 0), p("s", 1)),
+        m: v["m"].as_u64().unwrap_or(0) as u8,
+        a: v["a"].as_u64().unwrap_or(0) != 0,
+        v: v["v"].as_u64().unwrap_or(0) != 0,
+        rows: v["rows"].as_array().map(|rs| rs.iter().map(|r| r.as_array().map(|cs| cs.iter().map(cell_from).collect()).unwrap_or_default()).collect()).unwrap_or_default(),
+    }
+}
+fn stack_json(s: &[Lay]) -> Value {
+    Value::Array(s.iter().map(lay_json).collect())
+}
+fn tr_json(t: &Tr) -> Value {
+    json!({"op":t.op,"k":t.k,"d":[t.d.0,t.d.1],"layer": t.layer.as_ref().map(lay_json).unwrap_or(json!([]))})
+}
+
+fn to_char(c: &Option<Cell>) -> AttributedChar {
+    match c {
+        None => AttributedChar::invisible(),
+        Some(c) => {
+            let mut at = TextAttribute::new(col_in(c.fg), col_in(c.bg));
+            at.attr = c.attr;
+            at.set_font_page(c.font);
+            AttributedChar::new(char::from_u32(c.ch).unwrap_or(' '), at)
+        }
+    }
+}
+
+/// The real document: non-terminal buffer, no overlay, one engine layer per model layer (bottom first).
+fn build(stack: &[Lay]) -> Buffer {
+    let mut buf = Buffer::new((16, 10));
+    buf.is_terminal_buffer = false;
+    buf.layers.clear();
+    for (i, l) in stack.iter().enumerate() {
+        let mut layer = Layer::new(format!("l{i}"), (l.s.0, l.s.1));
+        layer.lines = l.rows.iter().map(|r| Line { chars: r.iter().map(to_char).collect() }).collect();
+        layer.properties.mode = match l.m { 1 => Mode::Chars, 2 => Mode::Attributes, _ => Mode::Normal };
+        layer.properties.has_alpha_channel = l.a;
+        layer.set_offset((l.o.0, l.o.1));
+        layer.properties.is_visible = l.v;
+        layer.default_font_page = 0;
+        buf.layers.push(layer);
+    }
+    buf
+}
+
+fn observe(buf: &Buffer, bx: [i32; 4]) -> Value {
+    let mut rows = Vec::new();
+    for y in bx[1]..=bx[3] {
+        let mut row = Vec::new();
+        for x in bx[0]..=bx[2] {
+            let c = buf.get_char((x, y));
+            if c.is_visible() {
+                row.push(json!([c.ch as u32, col_out(c.attribute.get_foreground()), col_out(c.attribute.get_background()), c.attribute.attr, c.attribute.get_font_page()]));
+            } else {
+                row.push(json!([]));
+            }
+        }
+        rows.push(Value::Array(row));
+    }
+    Value::Array(rows)
+}
+
+fn bbox(a: &[Lay], b: &[Lay], border: i32) -> [i32; 4] {
+    let all: Vec<&Lay> = a.iter().chain(b.iter()).collect();
+    if all.is_empty() {
+        return [-border, -border, border, border];
+    }
+    [
+        all.iter().map(|l| l.o.0).min().unwrap() - border,
+        all.iter().map(|l| l.o.1).min().unwrap() - border,
+        all.iter().map(|l| l.o.0 + l.s.0 - 1).max().unwrap() + border,
+        all.iter().map(|l| l.o.1 + l.s.1 - 1).max().unwrap() + border,
+    ]
+}
+
+fn apply(t: &Tr, a: &[Lay]) -> Vec<Lay> {
+    let mut b = a.to_vec();
+    match t.op {
+        "remove" => {
+            b.remove(t.k - 1);
+        }
+        "edit" => b[t.k - 1] = t.layer.clone().unwrap(),
+        "below" => b = a[t.k - 1..].to_vec(),
+        "insert" => b.insert(t.k, t.layer.clone().unwrap()),
+        "translate" => {
+            for l in &mut b {
+                l.o = (l.o.0 + t.d.0, l.o.1 + t.d.1);
+            }
+        }
+        "move" => {
+            let l = &mut b[t.k - 1];
+            l.o = (l.o.0 + t.d.0, l.o.1 + t.d.1);
+        }
+        _ => unreachable!(),
+    }
+    b
+}
+
+fn run_case(out: &mut Out, case: usize, src: &str, a: &[Lay], t: &Tr) {
+    let b = apply(t, a);
+    if b.is_empty() || b.len() > 5 {
+        return; // the property speaks about stacks of 1..=5 layers (the model covers the empty stack in R1)
+    }
+    let bx = bbox(a, &b, 2);
+    out.ev(&json!({"ev":"reset","case":case,"src":src}));
+    let r = guard(|| {
+        let ba = build(a);
+        let bb = build(&b);
+        (observe(&ba, bx), observe(&bb, bx))
+    });
+    match r {
+        Ok((ga, gb)) => out.ev(&json!({"ev":"law","case":case,"tr":tr_json(t),"A":stack_json(a),"B":stack_json(&b),"box":bx,"gA":ga,"gB":gb})),
+        Err(p) => out.ev(&json!({"ev":"panic","case":case,"tr":tr_json(t),"A":stack_json(a),"B":stack_json(&b),"box":bx,"site":panic_site(&p),"msg":p.msg})),
+    }
+}
+
+// ------------------------------------------------------------------ random stacks inside the stated domain
+const OFF_MIN: i32 = -4;
+const OFF_MAX: i32 = 6;
+
+fn rnd_cell(r: &mut StdRng) -> Cell {
+    let k = r.gen_range(0..100);
+    if k < 18 {
+        // transparent-colour half-block cells as written by the half-block painter (and a few odd ones)
+        let ch = match r.gen_range(0..10) { 0..=4 => 223, 5..=8 => 220, _ => *[219u32, 65, 32].get(r.gen_range(0..3)).unwrap() };
+        let c = r.gen_range(0..16);
+        match r.gen_range(0..8) {
+            0 => Cell { ch, fg: T, bg: c, attr: 0, font: 0 },
+            1 => Cell { ch, fg: T, bg: T, attr: 0, font: 0 },
+            _ => Cell { ch, fg: c, bg: T, attr: 0, font: 0 },
+        }
+    } else if k < 30 {
+        // blanks: space / NUL on black (with any foreground) or on a colour
+        let ch = if r.gen_bool(0.7) { 32 } else { 0 };
+        Cell { ch, fg: if r.gen_bool(0.5) { 7 } else { r.gen_range(0..16) }, bg: if r.gen_bool(0.7) { 0 } else { r.gen_range(1..8) }, attr: 0, font: 0 }
+    } else {
+        let ch = match r.gen_range(0..10) {
+            0..=3 => r.gen_range(65..91),
+            4 => *[176u32, 177, 178, 219, 220, 221, 222, 223, 254].get(r.gen_range(0..9)).unwrap(),
+            5 => *[219u32, 220, 223].get(r.gen_range(0..3)).unwrap(),
+            _ => r.gen_range(0..256),
+        };
+        let attr = match r.gen_range(0..12) { 0 => 1u16, 1 => 8, 2 => 16, 3 => 9, _ => 0 };
+        let font = if r.gen_range(0..20) == 0 { r.gen_range(1..4) } else { 0 };
+        Cell { ch, fg: r.gen_range(0..16), bg: if r.gen_bool(0.4) { 0 } else { r.gen_range(0..16) }, attr, font }
+    }
+}
+
+fn rnd_dim(r: &mut StdRng, max: i32) -> i32 {
+    if r.gen_bool(0.45) { r.gen_range(1..=max.min(4)) } else { r.gen_range(1..=max) }
+}
+
+fn rnd_rows(r: &mut StdRng, w: i32, h: i32, empty: bool) -> Vec<Vec<Option<Cell>>> {
+    let density = if empty { 0.0 } else { *[0.08, 0.25, 0.5, 0.8, 1.0].get(r.gen_range(0..5)).unwrap() };
+    let mut rows: Vec<Vec<Option<Cell>>> = (0..h).map(|_| (0..w).map(|_| if density > 0.0 && r.gen_bool(density) { Some(rnd_cell(r)) } else { None }).collect()).collect();
+    // storage variety: rows / lines may be shorter than the layer (missing = invisible, Layer::get_char)
+    match r.gen_range(0..6) {
+        0 => {
+            let keep = r.gen_range(0..=h as usize);
+            rows.truncate(keep);
+        }
+        1 => {
+            for row in &mut rows {
+                let keep = r.gen_range(0..=w as usize);
+                row.truncate(keep);
+            }
+        }
+        _ => {}
+    }
+    rows
+}
+
+fn rnd_layer(r: &mut StdRng, empty: bool) -> Lay {
+    let (w, h) = (rnd_dim(r, 12), rnd_dim(r, 8));
+    // offsets -4..=6, biased towards overlap near the origin
+    let off = |r: &mut StdRng| if r.gen_bool(0.5) { r.gen_range(-2..=3) } else { r.gen_range(OFF_MIN..=OFF_MAX) };
+    let m = match r.gen_range(0..10) { 0..=5 => 0, 6..=7 => 1, _ => 2 };
+    Lay { o: (off(r), off(r)), s: (w, h), m, a: r.gen_bool(0.6), v: r.gen_bool(0.82), rows: rnd_rows(r, w, h, empty) }
+}
+
+fn in_domain(l: &Lay) -> bool {
+    (OFF_MIN..=OFF_MAX).contains(&l.o.0) && (OFF_MIN..=OFF_MAX).contains(&l.o.1)
+}
+
+fn rnd_d(r: &mut StdRng, ls: &[&Lay]) -> Option<(i32, i32)> {
+    // a non-zero displacement that keeps every moved layer at offsets -4..=6
+    for _ in 0..40 {
+        let d = (r.gen_range(-6..=6), r.gen_range(-6..=6));
+        if d != (0, 0) && ls.iter().all(|l| in_domain(&Lay { o: (l.o.0 + d.0, l.o.1 + d.1), ..(*l).clone() })) {
+            return Some(d);
+        }
+    }
+    None
+}
+
+/// A random stack prepared so that transformation kind `want` is applicable, and that transformation.
+fn rnd_case(r: &mut StdRng, want: usize) -> (Vec<Lay>, Tr) {
+    let n = if want == 3 { r.gen_range(1..=4) } else { r.gen_range(1..=5) };
+    let mut a: Vec<Lay> = (0..n).map(|_| rnd_layer(r, false)).collect();
+    let k = r.gen_range(1..=n);
+    let t = match want {
+        0 => {
+            if n == 1 {
+                a.push(rnd_layer(r, false));
+            }
+            Tr { op: "remove", k, d: (0, 0), layer: None }
+        }
+        1 => {
+            if n == 1 {
+                a.push(rnd_layer(r, false));
+            }
+            a[k - 1].v = false;
+            let mut l = rnd_layer(r, false);
+            l.v = false;
+            if r.gen_bool(0.3) { Tr { op: "remove", k, d: (0, 0), layer: None } } else { Tr { op: "edit", k, d: (0, 0), layer: Some(l) } }
+        }
+        2 => {
+            // an opaque layer with something below it; favour sparse content so that the default-cell paths are hit
+            if n == 1 {
+                a.insert(0, rnd_layer(r, false));
+            }
+            let k = r.gen_range(2..=a.len());
+            a[k - 1].m = 0;
+            a[k - 1].a = false;
+            a[k - 1].v = true;
+            Tr { op: "below", k, d: (0, 0), layer: None }
+        }
+        3 => {
+            let mut l = rnd_layer(r, true);
+            l.a = true;
+            if r.gen_bool(0.9) {
+                l.v = true;
+            }
+            Tr { op: "insert", k: r.gen_range(0..=n), d: (0, 0), layer: Some(l) }
+        }
+        4 => match rnd_d(r, &a.iter().collect::<Vec<_>>()) {
+            Some(d) => Tr { op: "translate", k: 0, d, layer: None },
+            None => Tr { op: "remove", k, d: (0, 0), layer: None },
+        },
+        5 => {
+            a[k - 1].v = true;
+            match rnd_d(r, &[&a[k - 1]]) {
+                Some(d) => Tr { op: "move", k, d, layer: None },
+                None => Tr { op: "remove", k, d: (0, 0), layer: None },
+            }
+        }
+        _ => {
+            // alpha layer removal (L3): make layer k an alpha layer
+            if n == 1 {
+                a.insert(0, rnd_layer(r, false));
+            }
+            a[k - 1].a = true;
+            a[k - 1].v = true;
+            Tr { op: "remove", k, d: (0, 0), layer: None }
+        }
+    };
+    (a, t)
+}
+
+fn half_block_table() -> Value {
+    // set pixels in the upper / lower half of every glyph of the default font (font page 0 of a new Buffer)
+    let font = BitFont::default();
+    let mut bits = Vec::new();
+    for c in 0..256u32 {
+        let ch = char::from_u32(c).unwrap();
+        match font.get_glyph(ch) {
+            Some(g) => {
+                let n = g.data.len();
+                let up: u32 = g.data[..n / 2].iter().map(|b| b.count_ones()).sum();
+                let lo: u32 = g.data[n / 2..n / 2 + n / 2].iter().map(|b| b.count_ones()).sum();
+                bits.push(json!([up, lo]));
+            }
+            None => bits.push(json!([0, 0])),
+        }
+    }
+    json!({"ev":"font","w":font.size.width,"h":font.size.height,"bits":bits})
+}
+
+pub fn c13(a: &Args) {
+    let mut out = Out::create(&a.str("out", "work/C13/trace.ndjson"));
+    let seed = a.u64("seed", 0);
+    let thorough = a.str("tier", "quick") == "thorough";
+    out.ev(&half_block_table());
+    let mut case = 0usize;
+
+    // (1) cases exported by TLC from MC_Layers (Gen_Layers_*.cfg): {"tr":..,"A":[..],"B":[..]}
+    let mut n_gen = 0;
+    for (gi, path) in a.str("gen", "").split(',').filter(|s| !s.is_empty()).enumerate() {
+        let Ok(text) = std::fs::read_to_string(path) else {
+            eprintln!("c13: cannot read {path}");
+            std::process::exit(2);
+        };
+        // the largest family (3-layer stacks) is sampled 1 in 4 in the quick tier (which quarter depends on the seed)
+        let lines: Vec<&str> = text.lines().collect();
+        let stride = if !thorough && lines.len() > 20000 { 4 } else { 1 };
+        for (i, line) in lines.iter().enumerate() {
+            if (i + seed as usize + gi) % stride != 0 {
+                continue;
+            }
+            let Ok(v) = serde_json::from_str::<Value>(line) else { continue };
+            let st: Vec<Lay> = v["A"].as_array().map(|x| x.iter().map(lay_from).collect()).unwrap_or_default();
+            let op = match v["tr"]["op"].as_str().unwrap_or("") { "remove" => "remove", "edit" => "edit", "below" => "below", "insert" => "insert", "translate" => "translate", "move" => "move", _ => continue };
+            let t = Tr {
+                op,
+                k: v["tr"]["k"].as_u64().unwrap_or(0) as usize,
+                d: (v["tr"]["d"][0].as_i64().unwrap_or(0) as i32, v["tr"]["d"][1].as_i64().unwrap_or(0) as i32),
+                layer: if v["tr"]["layer"].is_object() { Some(lay_from(&v["tr"]["layer"])) } else { None },
+            };
+            // the driver's own transformation must agree with the specification's (Apply in Layers.tla)
+            let tb: Vec<Lay> = v["B"].as_array().map(|x| x.iter().map(lay_from).collect()).unwrap_or_default();
+            if apply(&t, &st) != tb {
+                eprintln!("c13: driver and specification disagree about {line}");
+                std::process::exit(2);
+            }
+            case += 1;
+            run_case(&mut out, case, "tlc", &st, &t);
+            n_gen += 1;
+        }
+    }
+    eprintln!("c13: {n_gen} TLC-generated cases replayed");
+
+    // (2) seeded random stacks: 1..=5 layers, 1..=12 x 1..=8, offsets -4..=6, all modes
+    let n_rnd = a.usize("n", if thorough { 12000 } else { 700 });
+    for i in 0..n_rnd {
+        let mut r = rng(seed, 130_000 + i as u64);
+        let (st, t) = rnd_case(&mut r, i % 7);
+        debug_assert!(st.iter().all(in_domain) && st.len() <= 5);
+        case += 1;
+        run_case(&mut out, case, "rnd", &st, &t);
+    }
+    out.flush();
+    eprintln!("c13: {n_rnd} random cases, {} events", out.n);
 }
